@@ -84,7 +84,7 @@ def ckOp (buffered : Bool) (op : String) (res : String) (ds dd : Nat) (dgs : Lis
     some ⟨"C06+C07+C12", "the call returned Ok although a send attempted during it was refused by the socket"⟩ else
   if !buffered && (op.startsWith "e" || op.startsWith "g") then
     let m := if op.startsWith "e" then unhex (op.drop 1).toString else genMetric ((op.drop 1).toString.toNat?.getD 0)
-    if ds + dd ≠ 1 then some ⟨"C13", "an unbuffered emit did not make exactly one send attempt"⟩
+    if ds + dd ≠ 1 then some ⟨"C13+C14", "an unbuffered emit did not make exactly one send attempt (or did not count it)"⟩
     else if res.startsWith "ok" then
       if res ≠ s!"ok{m.length}" then some ⟨"C13", "emit returned a byte count other than the metric's length"⟩
       else if auto && dgs ≠ [dgrepr m] then some ⟨"C13", "the datagram on the wire is not exactly the metric's bytes"⟩
@@ -310,6 +310,12 @@ def runStrace (_prop : String) (_f : List String) (obsS : String) : Verdict :=
   if obsS == "ok" then ⟨true, "ok", "ok", none, ["attempts-by-strace"], false⟩
   else if obsS == "strace-unavailable" then ⟨true, obsS, obsS, none, ["strace-unavailable"], false⟩
   else ⟨true, obsS, obsS, some ("C14", "send attempts counted by the kernel differ from the sink's counters: " ++ obsS), ["attempts-by-strace"], false⟩
+
+/-- emit + flush on one thread against flushing threads: the emitter's metric is on the wire once its flush returned -/
+def runFlushRace (_prop : String) (_f : List String) (obsS : String) : Verdict :=
+  if obsS == "ok" then ⟨true, "ok", "ok", none, ["flush-race"], false⟩
+  else if obsS == "setup-failed" then ⟨true, obsS, obsS, none, ["flush-race-setup-failed"], false⟩
+  else ⟨true, obsS, obsS, some ("C12+C06+C13", "concurrent flushes: " ++ obsS), ["flush-race"], false⟩
 
 def runLock (_prop : String) (_f : List String) (obsS : String) : Verdict :=
   if obsS == "ok" then ⟨true, "ok", "ok", none, ["lock-contention"], false⟩
